@@ -188,8 +188,11 @@ def _run_screen(plan, spec, scratch, log, stats, violation):
 
         def ask(score_of):
             RP.calls = []
+            pipe.LEFTOVERS["on_rerun"] = [lambda: RP.calls.clear()]
             sh = ChunkedScoresHolder(len(cands))
-            for p in cands:
+            lay = list(cands)  # the stored order of the scores is whatever order the chunk files were combined in
+            rnd.shuffle(lay)
+            for p in lay:
                 sh.add_score(p, score_of(p))
             if path.startswith("cli"):
                 f = scratch.file("score_chunk_0.h5")
